@@ -143,7 +143,9 @@ theorem SvStep.cnFail {n m : N} (h : SvStep n m) (cfg : Cfg) (w : Who) : SvStep 
       · split
         · split
           · exact ha.knCleanup
-          · exact (ha.cnStop _).ev _ (fun _ _ hh => by cases hh)
+          · split
+            · exact (((ha.cnStop _).ev _ (fun _ _ hh => by cases hh)).ev _ (fun _ _ hh => by cases hh)).same rfl rfl
+            · exact (ha.cnStop _).ev _ (fun _ _ hh => by cases hh)
         · exact ha.same rfl rfl
       · exact ha
     · exact ha
@@ -752,6 +754,7 @@ theorem step_svStep (cfg : Cfg) (n : N) (op : Op) : SvStep n (step cfg n op).1 :
       exact SvStep.fireAll cfg _ (SvStep.of_eq rfl rfl rfl)
   | knDelay tbl => exact SvStep.of_eq rfl rfl rfl
   | knDelayAct tbl k cl => exact SvStep.of_eq rfl rfl rfl
+  | knDelayRe tbl k => exact SvStep.of_eq rfl rfl rfl
   | budget k => exact SvStep.of_eq rfl rfl rfl
   | fault kind k =>
       simp only [step]
